@@ -14,6 +14,7 @@ import (
 	"math/rand"
 	"strings"
 	"sync"
+	"sync/atomic"
 	"testing"
 	"time"
 
@@ -33,7 +34,10 @@ type c12Bid struct {
 	Digest []byte
 }
 
-// Kind: submit (H, Bid) | take | abandon (H) | decision (Sid, Digest, Status) | recverr (Sid)
+// Kind: submit (H, Bid) | take | abandon (H) | decision (Sid, Digest, Status) | recverr (Sid) |
+//
+//	decision2 (Sid, Status, Sid2, Status2, Digest): two streams name the same digest; the first is parked
+//	between its lookup and its callback (at the service's log call) while the second does its lookup
 type c12Op struct {
 	Kind   string
 	H      int     `json:",omitempty"`
@@ -41,6 +45,8 @@ type c12Op struct {
 	Sid    int     `json:",omitempty"`
 	Digest []byte  `json:",omitempty"`
 	Status int32   `json:",omitempty"`
+	Sid2    int    `json:",omitempty"`
+	Status2 int32  `json:",omitempty"`
 }
 
 type c12In struct{ Ops []c12Op }
@@ -73,7 +79,31 @@ type c12Obs struct {
 	Streams []c12StreamObs
 	Pending int
 	Taken   []int // per "take" op: the call that was served, -1 none
+	Gated   []bool // per "decision2" op: the first stream was parked between lookup and callback
 }
+
+// gate between the lookup and the callback of SendProcessedBids: the service logs exactly there; a
+// handler that parks the logging goroutine on that record realises the schedule
+// Lookup(s1); Lookup(s2); Callback(s1); Callback(s2) without any hook in the code under test
+const c12GateMsg = "received bid status from node"
+
+type c12Gate struct {
+	armed   atomic.Bool
+	arrived chan chan struct{}
+}
+type c12GateHandler struct{ g *c12Gate }
+
+func (h c12GateHandler) Enabled(context.Context, slog.Level) bool { return true }
+func (h c12GateHandler) Handle(_ context.Context, r slog.Record) error {
+	if r.Message == c12GateMsg && h.g.armed.Load() {
+		rel := make(chan struct{})
+		h.g.arrived <- rel
+		<-rel
+	}
+	return nil
+}
+func (h c12GateHandler) WithAttrs([]slog.Attr) slog.Handler { return h }
+func (h c12GateHandler) WithGroup(string) slog.Handler      { return h }
 
 // context whose first Done() call (the select inside ProcessBid, after the registration) is
 // signalled to the driver: positive synchronisation without sleeping
@@ -152,12 +182,13 @@ func c12Run(t testing.TB, in c12In, slow int) c12Obs {
 		}
 		c12Validator = v
 	})
-	logger := slog.New(slog.NewTextHandler(io.Discard, nil))
+	gate := &c12Gate{arrived: make(chan chan struct{}, 8)}
+	logger := slog.New(c12GateHandler{gate})
 	svc := NewService(logger, nil, common.Address{}, nil, c12Validator)
 	wait := time.Duration(slow) * 10 * time.Second
 	settle := time.Duration(slow) * 30 * time.Millisecond
 
-	obs := c12Obs{Calls: []c12CallObs{}, Emitted: []c12Emit{}, Streams: []c12StreamObs{}, Taken: []int{}}
+	obs := c12Obs{Calls: []c12CallObs{}, Emitted: []c12Emit{}, Streams: []c12StreamObs{}, Taken: []int{}, Gated: []bool{}}
 	calls := map[int]*c12Call{}
 	order := []int{}
 	rets := make(chan c12Ret, 64)
@@ -234,8 +265,59 @@ func c12Run(t testing.TB, in c12In, slow int) c12Obs {
 		}
 	}
 
+	// feed one message; returns the release channel when the stream parked at the gate
+	feedGated := func(sid int, m c12Msg) chan struct{} {
+		s := getStream(sid)
+		if s.dead {
+			return nil
+		}
+		select {
+		case s.in <- m:
+		case <-time.After(wait):
+			sstate[sid], s.dead = 9, true
+			return nil
+		}
+		select {
+		case rel := <-gate.arrived:
+			return rel
+		case <-s.idle:
+		case st := <-s.ret:
+			sstate[sid], s.dead = st, true
+		case <-time.After(wait):
+			sstate[sid], s.dead = 9, true
+		}
+		return nil
+	}
+	release := func(sid int, rel chan struct{}) {
+		if rel == nil {
+			return
+		}
+		s := streams[sid]
+		close(rel)
+		select {
+		case <-s.idle:
+		case st := <-s.ret:
+			sstate[sid], s.dead = st, true
+		case <-time.After(wait):
+			sstate[sid], s.dead = 9, true
+		}
+	}
+
 	for _, op := range in.Ops {
 		switch op.Kind {
+		case "decision2":
+			if op.Sid == op.Sid2 {
+				continue
+			}
+			gate.armed.Store(true)
+			rel1 := feedGated(op.Sid, c12Msg{resp: &providerapiv1.BidResponse{BidDigest: op.Digest,
+				Status: providerapiv1.BidResponse_Status(op.Status)}})
+			rel2 := feedGated(op.Sid2, c12Msg{resp: &providerapiv1.BidResponse{BidDigest: op.Digest,
+				Status: providerapiv1.BidResponse_Status(op.Status2)}})
+			gate.armed.Store(false)
+			obs.Gated = append(obs.Gated, rel1 != nil)
+			release(op.Sid, rel1)
+			release(op.Sid2, rel2)
 		case "submit":
 			if _, dup := calls[op.H]; dup || op.Bid == nil {
 				continue
@@ -370,6 +452,7 @@ func c12CoqBid(b *c12Bid) string {
 func c12Coq(id int, in c12In, obs c12Obs) string {
 	ops := []string{}
 	ti := 0
+	gi := 0
 	seen := map[int]bool{}
 	for _, op := range in.Ops {
 		switch op.Kind {
@@ -396,6 +479,22 @@ func c12Coq(id int, in c12In, obs c12Obs) string {
 			ops = append(ops, coqApp("OAbandon", coqN(uint64(op.H))))
 		case "decision":
 			ops = append(ops, coqApp("ODecision", coqN(uint64(op.Sid)), coqBytes(op.Digest), coqZ(int64(op.Status))))
+		case "decision2":
+			if op.Sid == op.Sid2 {
+				continue
+			}
+			gated := gi < len(obs.Gated) && obs.Gated[gi]
+			gi++
+			if gated {
+				ops = append(ops,
+					coqApp("OLookup", coqN(uint64(op.Sid)), coqBytes(op.Digest), coqZ(int64(op.Status))),
+					coqApp("OLookup", coqN(uint64(op.Sid2)), coqBytes(op.Digest), coqZ(int64(op.Status2))),
+					coqApp("OCallback", coqN(uint64(op.Sid))), coqApp("OCallback", coqN(uint64(op.Sid2))))
+			} else {
+				ops = append(ops,
+					coqApp("ODecision", coqN(uint64(op.Sid)), coqBytes(op.Digest), coqZ(int64(op.Status))),
+					coqApp("ODecision", coqN(uint64(op.Sid2)), coqBytes(op.Digest), coqZ(int64(op.Status2))))
+			}
 		case "recverr":
 			ops = append(ops, coqApp("ORecvErr", coqN(uint64(op.Sid))))
 		}
@@ -552,6 +651,25 @@ func c12Generate(r *rand.Rand, class string) c12In {
 			}
 		}
 		return c12In{ops}
+	case "gated-streams":
+		// two decision streams race for one digest: the second lookup happens while the first stream is
+		// between its lookup and its callback
+		ops := []c12Op{sub(1, c12GoodBid(r, 1, dA)), sub(2, c12GoodBid(r, 2, dB)), take, take}
+		d2 := func(d []byte) c12Op {
+			a := r.Intn(2)
+			return c12Op{Kind: "decision2", Sid: a, Sid2: 1 - a, Digest: d, Status: []int32{1, 2}[r.Intn(2)],
+				Status2: []int32{1, 2, 1, 2, 0}[r.Intn(5)]}
+		}
+		ops = append(ops, d2(dA))
+		switch r.Intn(4) {
+		case 0:
+			ops = append(ops, d2(dB))
+		case 1:
+			ops = append(ops, d2(dA), dec(0, dB, 1))
+		case 2:
+			ops = append(ops, d2(unknown), d2(dB))
+		}
+		return c12In{ops}
 	case "cancel":
 		ops := []c12Op{sub(1, c12GoodBid(r, 1, dA)), sub(2, c12GoodBid(r, 2, dB))}
 		switch r.Intn(4) {
@@ -600,6 +718,17 @@ func TestVerifC12(t *testing.T) {
 	defer e.Close()
 	run := func(class string, in c12In) {
 		obs := c12Run(t, in, e.Slow)
+		if class == "gated-streams" {
+			// self-check of the gate: if the service no longer logs the expected record between lookup and
+			// callback, the schedule falls back to the sequential one and the case is labelled accordingly
+			any := false
+			for _, g := range obs.Gated {
+				any = any || g
+			}
+			if !any {
+				class = "ungated"
+			}
+		}
 		e.Emit(class, in, obs, func(id int) string { return c12Coq(id, in, obs) })
 	}
 	for _, raw := range e.Replay {
@@ -616,7 +745,7 @@ func TestVerifC12(t *testing.T) {
 	for i := 0; i < 40; i++ {
 		run("invalid-bid", c12Generate(e.rng, "invalid-bid"))
 	}
-	classes := []string{"single", "decisions", "equal-digests", "cancel", "random", "random"}
+	classes := []string{"single", "decisions", "equal-digests", "cancel", "gated-streams", "random", "random"}
 	for i := 0; i < e.N; i++ {
 		for _, c := range classes {
 			run(c, c12Generate(e.rng, c))
